@@ -34,7 +34,7 @@ func runC08(r *vk.Run) {
 	r.SetRule("datasets (all line formats) whose records additionally carry labels a,b with values that collide under naive joining ({a=\"1\\\",b=\\\"2\"} vs {a=\"1\",b=\"2\"}, embedded quotes, commas, newlines, backslashes) x queries whose stages add, remove or rewrite labels " +
 		"(parsers, label_format, drop, keep, filters, distinct) x every limit in {-5,-1,0,1,N-1,N,N+1,2N}. Checked on the raw result: no two streams share a label set, every entry sits in the stream carrying exactly its expected final labels, per-stream time order, " +
 		"total = N (limit<=0) and with limit L the first min(L,N) matching records in time order. non-trivial = distinct (dataset, query, limit) with >=2 streams or a limit that truncates.")
-	r.Assume("unique timestamps make 'first L' unambiguous", "expected final labels come from the C01/C07 reference interpreter")
+	r.Assume("unique timestamps make 'first L' unambiguous (phase partition); phase containers compares the multiset of returned timestamps with the first L of all timestamps, which ties do not make ambiguous, and uses positive limits only when every container's own log is time-ordered", "expected final labels come from the C01/C07 reference interpreter")
 	msg, err := calibrateMsgLabel()
 	if err != nil {
 		r.Inconclusive(err.Error())
@@ -193,6 +193,110 @@ func runC08(r *vk.Run) {
 			c.Sample("partition", map[string]any{"query": text, "matching": N, "limits": limits})
 		}
 	})
+	// the same over the Docker storage: several containers merged, records of one stream possibly
+	// arriving out of timestamp order (a container whose clock stepped back)
+	r.Phase("containers", r.N(1200, 300000), func(c *vk.Case) {
+		rng := c.Rng
+		inv := genMergeInventory(rng, rng.Range(1, 7), 8)
+		ordered := true
+		var all []int64
+		tsOf := map[string]int64{}
+		owner := map[string]string{}
+		for _, cs := range inv {
+			for j, f := range cs.Frames {
+				if j > 0 && f.TS < cs.Frames[j-1].TS {
+					ordered = false
+				}
+				all = append(all, f.TS)
+				tsOf[f.Body] = f.TS
+				owner[f.Body] = cs.ID
+			}
+		}
+		sort.Slice(all, func(i, j int) bool { return all[i] < all[j] })
+		N := len(all)
+		// every line carries its text under the calibrated message label, which would make each entry
+		// its own stream: drop it so that a stream is a container
+		ctrQuery := `{container=~".+"}`
+		if msg {
+			ctrQuery += " | drop msg"
+		}
+		limits := []int{-1, 0}
+		if ordered {
+			// "the first L in time order" is only defined by arrival when arrival is time order
+			limits = append(limits, 1, 2, N/2, N-1, N, N+3)
+		}
+		for _, L := range limits {
+			fd := newFakeDocker(inv)
+			res, err := evalQuery(dockerQuerier(fd), ctrQuery, EvalP{Start: 1600000000e9, End: 1800000000e9, Step: time.Second, Limit: L})
+			c.Eval(1)
+			det := map[string]any{"inventory": inv, "limit": L, "result": res, "per_container_ordered": ordered}
+			if err != nil {
+				c.Fail("", fmt.Sprintf("limit %d: query failed: %v", L, err), det)
+				return
+			}
+			wantN := N
+			if L > 0 && L < N {
+				wantN = L
+			}
+			seenSets := map[string]bool{}
+			seenLine := map[string]bool{}
+			var gotTS []int64
+			for _, st := range res.Streams {
+				k := labelKey(st.Labels)
+				if seenSets[k] {
+					c.Fail("", fmt.Sprintf("limit %d: two streams share label set %s", L, k), det)
+					return
+				}
+				seenSets[k] = true
+				for i, e := range st.Entries {
+					ts, ok := tsOf[e.Line]
+					if !ok || ts != e.TS {
+						c.Fail("", fmt.Sprintf("limit %d: entry %q ts=%d was never written so", L, e.Line, e.TS), det)
+						return
+					}
+					if seenLine[e.Line] {
+						c.Fail("", fmt.Sprintf("limit %d: entry %q returned twice", L, e.Line), det)
+						return
+					}
+					seenLine[e.Line] = true
+					if st.Labels["container_id"] != owner[e.Line] {
+						c.Fail("", fmt.Sprintf("limit %d: entry %q of container %s sits in stream of %s", L, e.Line, owner[e.Line], st.Labels["container_id"]), det)
+						return
+					}
+					if i > 0 && st.Entries[i-1].TS > e.TS {
+						c.Fail("", fmt.Sprintf("limit %d: stream %s not in timestamp order at %q (%d after %d)", L, k, e.Line, e.TS, st.Entries[i-1].TS), det)
+						return
+					}
+					gotTS = append(gotTS, e.TS)
+				}
+			}
+			if len(gotTS) != wantN {
+				c.Fail("", fmt.Sprintf("limit %d: %d entries returned, expected %d of %d", L, len(gotTS), wantN, N), det)
+				return
+			}
+			sort.Slice(gotTS, func(i, j int) bool { return gotTS[i] < gotTS[j] })
+			for i := range gotTS {
+				if gotTS[i] != all[i] {
+					c.Fail("", fmt.Sprintf("limit %d: returned entries are not the first %d in time order (timestamp #%d is %d, expected %d)", L, wantN, i, gotTS[i], all[i]), det)
+					return
+				}
+			}
+			c.Count("container_limit_checks", 1)
+			if L > 0 && L < N && len(inv) >= 3 {
+				c.Count("container_truncating_limits_3plus", 1)
+				c.Nontrivial(fmt.Sprintf("ctr|%d|%d", c.Idx, L))
+			}
+			for _, st := range res.Streams {
+				c.Max("entries_in_one_container_stream", int64(len(st.Entries)))
+			}
+			if !ordered && N > 0 {
+				c.Count("out_of_order_arrivals", 1)
+				c.Nontrivial(fmt.Sprintf("ooo|%d|%d", c.Idx, L))
+			}
+		}
+	})
+	r.Require("container_truncating_limits_3plus", 300)
+	r.Require("out_of_order_arrivals", 100)
 	r.Require("limit_checks", 4000)
 	r.Require("truncating_limits", 500)
 	r.Require("streams", 2000)
